@@ -22,7 +22,8 @@ fi
 for c in $CHECKS; do
   start=$(date +%s)
   out=$(cd /verif && VERIF_REPO=$WT VERIF_REPLAY_OUT=/tmp/mw-replays VERIF_EVIDENCE_SUFFIX=.mut VERIF_SEED=${VERIF_SEED:-0} ./run $c ${TIER:-quick} 2>&1); rc=$?
-  echo "MUTANT $ID check=$c rc=$rc secs=$(( $(date +%s)-start )) :: $(echo "$out" | grep -A1 VIOLATION | grep what | head -2 | cut -c1-300 | tr '\n' ' ')"
+  mkdir -p /tmp/mutlog; echo "$out" > /tmp/mutlog/$ID.$c.out
+  echo "MUTANT $ID check=$c rc=$rc secs=$(( $(date +%s)-start )) :: $(echo "$out" | grep -A1 VIOLATION | grep what | head -2 | cut -c1-300 | tr '\n' ' ') $(echo "$out" | grep -A3 INFRA | head -4 | cut -c1-300 | tr '\n' ' ')"
 done
 rm -f /verif/evidence/*.mut.json
 git -C /repo worktree remove --force $WT
